@@ -38,8 +38,79 @@ MUTANTS = [
 ]
 
 
+CLASS_MUTANTS = [
+    # (file, contract key suffix, old, new)
+    ('pyclifford/stabilizer.py', 'CliffordMap.inverse', 'ps_inv = (- ps_mis - ps0(gs_inv))%4', 'ps_inv = (- ps_mis + ps0(gs_inv))%4'),
+    ('pyclifford/stabilizer.py', 'CliffordMap.compose', 'gs, ps = pauli_transform(self.gs, self.ps, other.gs, other.ps)', 'gs, ps = pauli_transform(other.gs, other.ps, self.gs, self.ps)'),
+    ('pyclifford/stabilizer.py', 'StabilizerState.entropy#mask', 'return stabilizer_entropy(self.stabilizers.gs, subsys)', 'return stabilizer_entropy(self.gs, subsys)'),
+    ('pyclifford/paulialg.py', 'PauliList.rotate_by#mask', 'generator.g, generator.p, self.gs[:,mask2], self.ps)', 'generator.g, generator.p + 2, self.gs[:,mask2], self.ps)'),
+    ('pyclifford/paulialg.py', 'PauliPolynomial.copy', 'return PauliPolynomial(self.gs.copy(), self.ps.copy()).set_cs(self.cs.copy())', 'return PauliPolynomial(self.gs.copy(), self.ps.copy()).set_cs(self.cs)'),
+    ('pyclifford/paulialg.py', 'Pauli.__matmul__#Pauli', 'p = (self.p + other.p + ipow(self.g, other.g)) % 4', 'p = (self.p + other.p + ipow(other.g, self.g)) % 4'),
+    ('pyclifford/circuit.py', 'CliffordGate.backward#generator_local', '                obj.rotate_by(-self.generator, mask(self.qubits, obj.N))', '                obj.rotate_by(self.generator, mask(self.qubits, obj.N))'),
+    ('pyclifford/circuit.py', 'CliffordGate.compile#generator', 'self.backward_map = clifford_rotation_map(-self.generator)', 'self.backward_map = clifford_rotation_map(self.generator)'),
+    ('pyclifford/circuit.py', 'CliffordGate.independent_from', 'return len(set(self.qubits) & set(other_gate.qubits))==0', 'return len(set(self.qubits[1:]) & set(other_gate.qubits))==0'),
+]
+
+
 def run(run_, timeout_s=12):
     lib = run_.library()
+    out = run_kernels(run_, lib, timeout_s)
+    out2 = run_class(run_, lib, timeout_s)
+    return {'mutants': out['mutants'] + out2['mutants'], 'killed': out['killed'] + out2['killed'], 'survived': out['survived'] + out2['survived'],
+            'skipped': out['skipped'] + out2['skipped'], 'details': out['details'] + out2['details']}
+
+
+def run_class(run_, lib, timeout_s):
+    killed, survived, skipped = [], [], []
+    scratch = tempfile.mkdtemp(prefix='pyvc_selftest_')
+    try:
+        shutil.copytree(os.path.join(driver.REPO, 'pyclifford'), os.path.join(scratch, 'pyclifford'))
+        for (f, suffix, old, new) in CLASS_MUTANTS:
+            keys = [k for k in lib.contracts if k.endswith('::' + suffix)]
+            src = open(os.path.join(driver.REPO, f)).read()
+            if not keys or src.count(old) != 1:
+                skipped.append('%s (pattern occurs %d times in the current source)' % (suffix, src.count(old)))
+                continue
+            key = keys[0]
+
+            def discharged(key=key):
+                vcs, info = driver.gen_function_vcs(lib, key)
+                if info['status'] != 'ok':
+                    return None, info
+                res = solve.discharge(vcs, timeout_s=timeout_s, theory=lib.theory, want_model=False, retry=False)
+                obl = driver.aggregate(vcs, res)
+                return {o for o, r in obl.items() if r['discharged']}, info
+            base, _ = discharged()
+            if base is None:
+                skipped.append('%s (not verifiable on the current source)' % suffix)
+                continue
+            open(os.path.join(scratch, f), 'w').write(src.replace(old, new))
+            saved_repo, saved_cache = driver.REPO, dict(driver._src_cache)
+            driver.REPO = scratch
+            driver._src_cache.clear()
+            driver.MODULES.info.clear()
+            try:
+                good, info = discharged()
+                if good is None:
+                    killed.append({'function': suffix, 'by': 'extraction: ' + info.get('error', '')[:100]})
+                else:
+                    lost = sorted(base - good)
+                    if lost:
+                        killed.append({'function': suffix, 'by': lost[:3]})
+                    else:
+                        survived.append(suffix)
+            finally:
+                driver.REPO = saved_repo
+                driver._src_cache.clear()
+                driver._src_cache.update(saved_cache)
+                driver.MODULES.info.clear()
+                open(os.path.join(scratch, f), 'w').write(src)
+    finally:
+        shutil.rmtree(scratch, ignore_errors=True)
+    return {'mutants': len(CLASS_MUTANTS), 'killed': len(killed), 'survived': survived, 'skipped': skipped, 'details': killed}
+
+
+def run_kernels(run_, lib, timeout_s=12):
     src_path = os.path.join(driver.REPO, 'pyclifford', 'utils.py')
     src = open(src_path).read()
     scratch = tempfile.mkdtemp(prefix='pyvc_selftest_')
